@@ -120,7 +120,8 @@ def build_lean(prop):
             res["obligations"] = res["discharged"] = 0
             return res
         thms = []
-        for mod in cfg["props"]:
+        # obligations: every theorem of the property modules and of the lemma modules they rest on
+        for mod in [m for m in lean_closure(cfg["props"]) if m.startswith("Hostd.Props.") or m.startswith("Hostd.Lemmas.")]:
             thms += [(mod, t) for t in lean_theorems(mod)]
         res["obligations"] = len(thms)
         rc, out = run(["lake", "build"] + cfg["props"], cwd=LEAN)
